@@ -111,13 +111,24 @@ func C16(ctx *Ctx) {
 						break
 					}
 					// filled from a range over the same source field, values not aliased
-					filled, aliased := false, ""
+					filled, aliased, partial := false, "", ""
 					for _, ev := range ip.Events {
 						if ev.Kind != "map-update" || len(ev.Args) != 3 || absint.ValKey(ev.Args[0]) != vk {
 							continue
 						}
 						if strings.Contains(absint.ValKey(ev.Args[1]), "a."+fname+")") {
 							filled = true
+							// every entry, with its own value
+							for _, g := range ev.GuardL {
+								if !(strings.HasSuffix(g.Key, ".ok") && strings.Contains(g.Key, "next#")) {
+									partial = fmt.Sprintf("only when %s is %v", g.Key, g.Outcome)
+								}
+							}
+							if _, isSl := ev.Args[2].(*absint.Slice); !isSl {
+								if k := absint.ValKey(ev.Args[2]); !strings.Contains(k, "a."+fname+")") {
+									partial = "with the value " + k + " instead of the entry's own"
+								}
+							}
 						}
 						if sl, ok := ev.Args[2].(*absint.Slice); ok {
 							if sl.Base.Obj == nil || !strings.Contains(sl.Base.Obj.Name, "makeslice:") {
@@ -152,6 +163,8 @@ func C16(ctx *Ctx) {
 					}
 					if !filled {
 						R.Fail("coverage", "Clone:"+fname, cpos, "the fresh map is not filled from a range over the source's "+fname)
+					} else if partial != "" {
+						R.Fail("coverage", "Clone:"+fname, cpos, "entries of the source's "+fname+" are copied "+partial)
 					} else if aliased != "" {
 						R.Fail("no-alias", "Clone:"+fname, cpos, "a slice stored in the clone's map aliases the source: "+aliased)
 					} else {
@@ -337,13 +350,26 @@ func C16(ctx *Ctx) {
 				R.Fail("no-alias", key, apos, "the receiver now shares the argument's "+fname)
 				break
 			}
-			filled, aliased := false, ""
+			filled, aliased, partial := false, "", ""
 			for _, ev := range ip.Events {
 				if ev.Kind != "map-update" || len(ev.Args) != 3 || absint.ValKey(ev.Args[0]) != ak {
 					continue
 				}
 				if strings.Contains(absint.ValKey(ev.Args[1]), "e."+fname+")") {
 					filled = true
+					// every entry is merged: the update sits under nothing but the capacity guard and the
+					// range's own continuation test, and a plain value is the entry's own value
+					for _, g := range ev.GuardL {
+						if _, is := capacityGuard(g, cs); is || strings.HasSuffix(g.Key, ".ok") && strings.Contains(g.Key, "next#") {
+							continue
+						}
+						partial = fmt.Sprintf("only when %s is %v", g.Key, g.Outcome)
+					}
+					if _, isSl := ev.Args[2].(*absint.Slice); !isSl {
+						if vk := absint.ValKey(ev.Args[2]); !strings.Contains(vk, "e."+fname+")") {
+							partial = "with the value " + vk + " instead of the entry's own"
+						}
+					}
 				}
 				if sl, ok := ev.Args[2].(*absint.Slice); ok {
 					if sl.Base.Obj == nil || !strings.Contains(sl.Base.Obj.Name, "makeslice:") {
@@ -353,6 +379,8 @@ func C16(ctx *Ctx) {
 			}
 			if !filled {
 				R.Fail("coverage", key, apos, "entries of the argument's "+fname+" are not merged into the receiver's")
+			} else if partial != "" {
+				R.Fail("coverage", key, apos, "entries of the argument's "+fname+" are merged "+partial)
 			} else if aliased != "" {
 				R.Fail("no-alias", key, apos, "a slice of the argument is stored in the receiver's map: "+aliased)
 			} else {
